@@ -9,6 +9,9 @@ def _check(case):
     from probables import QuotientFilter
     from probables.exceptions import QuotientFilterError
 
+    if case.get("api") == "keys":
+        return _check_keys(case)
+
     q = case["q"]
     qf = QuotientFilter(quotient=q, auto_expand=case["auto"])
     other = None
@@ -109,6 +112,70 @@ def _shrink(case):
     return dict(case, ops=ops)
 
 
+def custom32(key, seed=0):
+    """a user-supplied 32-bit hash function for the key API (the filter takes `(key, seed) -> int`)"""
+    import hashlib
+
+    data = key.encode("utf-8") if isinstance(key, str) else bytes(key)
+    return int.from_bytes(hashlib.sha256(bytes([seed % 256]) + data).digest()[:4], "big")
+
+
+def _check_keys(case):
+    """the key API (add / check / remove by key) with a user-supplied hash function: the filter is a set of
+    the hashes of the keys whatever happens in between (resizes included)"""
+    from probables import QuotientFilter
+
+    fn = custom32 if case["hash"] == "custom" else None
+    qf = QuotientFilter(quotient=case["q"], auto_expand=case["auto"], hash_function=fn)
+    from probables.hashes import fnv_1a_32
+
+    hf = fn or fnv_1a_32
+    live = {}
+    for step, op in enumerate(case["ops"]):
+        if op[0] == "add":
+            res = core.call(qf.add, op[1], budget=BUDGET)
+            if res[0] == "ok":
+                live[op[1]] = hf(op[1], 0)
+            elif res[1] != "!QuotientFilterError":
+                return f"step {step}: add({op[1]!r}) raised {res[1]}"
+        elif op[0] == "rem":
+            res = core.call(qf.remove, op[1], budget=BUDGET)
+            if res[0] != "ok":
+                return f"step {step}: remove({op[1]!r}) raised {res[1]}"
+            h = hf(op[1], 0)
+            for k in [k for k, v in live.items() if v == h]:
+                del live[k]
+        elif op[0] == "resize":
+            res = core.call(qf.resize, op[1], budget=BUDGET * 4)
+            if res[0] == "err" and res[1] != "!QuotientFilterError":
+                return f"step {step}: resize({op[1]}) raised {res[1]}"
+        for k in live:
+            res = core.call(qf.check, k, budget=BUDGET)
+            if res[0] != "ok" or not res[1]:
+                return f"step {step} after {op[0]}: key {k!r} was added (hash function: {case['hash']}) and check says {res[1]}"
+        got = core.call(qf.get_hashes, budget=BUDGET)
+        if got[0] == "ok" and set(got[1]) != set(live.values()):
+            return f"step {step} after {op[0]}: stored hashes differ from the hashes of the live keys (hash function: {case['hash']})"
+        if qf.elements_added != len(set(live.values())):
+            return f"step {step} after {op[0]}: elements_added {qf.elements_added} != {len(set(live.values()))} distinct hashes"
+    return None
+
+
+def _gen_keys(rng):
+    q = rng.choice([3, 3, 4, 5])
+    keys = ["key-%d" % rng.randrange(500) for _ in range(rng.randint(2, 20))] + [b"\x00\xff", "caf\u00e9"]
+    ops = []
+    for _ in range(rng.randint(3, 30)):
+        x = rng.random()
+        if x < 0.6:
+            ops.append(("add", rng.choice(keys)))
+        elif x < 0.8:
+            ops.append(("rem", rng.choice(keys)))
+        else:
+            ops.append(("resize", rng.choice([None, q + 1, q + 2, q])))
+    return {"api": "keys", "q": q, "auto": rng.random() < 0.6, "hash": rng.choice(["custom", "custom", "fnv"]), "ops": ops, "probes": []}
+
+
 def _gen_selfmerge(rng):
     """directed: an auto-expanding filter filled to just under its size (load >= the resize threshold, so the
     next insertion resizes), then merged into itself — the resize happens while the filter's own hashes are
@@ -138,7 +205,7 @@ def run(tier, seed, deep, hints):
     for i in range(n + n_directed):
         if core.search_expired():
             break
-        case = _gen_selfmerge(rng) if i >= n else _gen(rng, tiny=(i % 6 != 5))
+        case = _gen_selfmerge(rng) if i >= n else (_gen_keys(rng) if i % 5 == 4 else _gen(rng, tiny=(i % 6 != 5)))
         evals += 1
         distinct.add(repr(case["ops"]))
         sample = case
